@@ -197,3 +197,44 @@ def manifest():
         checks=checks,
         not_applicable=na,
         notes='Family: contract-based deductive verification of the real C code with CBMC 6.11 code contracts. See DESIGN.md.')
+
+
+# ---- later additions (units built after the first registration), applied to the assembled texts --------------------------------
+def _amend(pid, old, new, field='text'):
+    t = CLAIMS[pid][field]
+    assert old in t, (pid, old[:50])
+    CLAIMS[pid][field] = t.replace(old, new, 1)
+
+
+_amend('C03', 'L3 (no other dependence on chunk geometry) is a manual audit.',
+       'Also bounded on the real state functions: a header line cut between CR and LF asks for buffering with nothing consumed (both directions), and the end-of-response probe of RES_FINALIZE '
+       '+ the real consolidation conserve the probed line (delivered ++ buffered ++ unconsumed == pending on entry: the next status line reaches RES_LINE exactly once wherever the chunk boundary falls; '
+       'a second genuine violation - a pipelined status line doubled when cut - was found and repaired here). L3 (no other dependence on chunk geometry) is a manual audit.')
+_amend('C19', 'all mutable parse state is reachable from the connection parser.',
+       'all mutable parse state is reachable from the connection parser. A second mechanical fact is taken from the COMPILED objects of the current tree on every run (gcc -c + nm over every htp/*.c and '
+       'htp/lzma/*.c): the library has no writable object with static storage duration (file-scope or block-scope static) other than two initialised tables that no store targets - so a parser cannot keep '
+       'state outside the objects reachable from its connection parser, also in functions that are not under contract.')
+_amend('C19', 'syntactic scan of the assigns clauses', 'syntactic scan of the assigns clauses + static-storage scan of the compiled objects (gcc -c, nm)', 'technique')
+_amend('C14', 'NOT decided: part contents / Content-Disposition values beyond conservation, parts -> parameters, end-to-end chunking invariance.',
+       'The set-aside copy may fail (then: error reported, matcher well-formed, no candidate left open). End of body: htp_mpartp_finalize from every such state hands out everything that was set aside, also when '
+       'no part object exists yet. Content-Disposition: the reported name / file name is byte-for-byte the quoted string that was sent (escape pairs; BOUNDED: every tail of up to 4 / 6 bytes after name=" / '
+       'filename="); after the hand-over of the strings to the transaction every further callback invocation is refused (dfcc contract, unbounded). Five defects found by these units are repaired in /repo. '
+       'NOT decided: part contents beyond conservation, the parts -> parameters map, end-to-end chunking invariance.')
+_amend('C16', 'Interleaving-level scenarios are the composition of these per-state contracts.',
+       'Response side (htp_connp_RES_BODY_DETERMINE, enforced): CONNECT + 2xx finalises the response with both stream states untouched (the request side probes the tunnel), a refused CONNECT unblocks the '
+       'request side (and stops at the end of the transaction unless 407), 101 without T-E / C-L puts both directions into TUNNEL, and the stream states are written nowhere else. '
+       'Interleaving-level scenarios are the composition of these per-state contracts.')
+_amend('C11', 'The response twin (RES_BODY_DETERMINE) is not under contract.',
+       'The response twin htp_connp_RES_BODY_DETERMINE is enforced against the same kind of decision table (chunked T-E + C-L => smuggling flag and chunked framing; REPEATED C-L => flag; negative C-L => error; '
+       'flags only grow). Host syntax: htp_validate_hostname equals an independent reference on every non-IP-literal name up to 7 / 10 bytes (BOUNDED; the 63-byte label limit needs longer names: not covered).')
+_amend('C02', 'Case-insensitive first-match lookup and wire order',
+       'Basic credentials: user-id = bytes before the FIRST colon of the decoded text, password = the rest (BOUNDED: decoded texts up to 6 / 10 bytes, base64 decoder replaced by a stand-in). '
+       'Case-insensitive first-match lookup and wire order')
+_amend('C06', 'Content equality over a whole multi-call body',
+       'The framing decisions that lead into the body states are enforced too (REQ_BODY_DETERMINE, RES_BODY_DETERMINE: identity framing enters the body state with bytes owed == Content-Length > 0, exactly what '
+       'the body state requires). Content equality over a whole multi-call body')
+_amend('C01', 'line-oriented state functions, RES_BODY_DETERMINE, transcoder', 'line-oriented state functions, transcoder')
+_amend('C05', 'Whole-trace order ACROSS transition functions and the 100-continue restart live in state functions not under contract here.',
+       'The documented 100-continue restart is enforced on htp_connp_RES_BODY_DETERMINE (every header released once, table cleared, progress back to LINE, counter + 1, the headers transition NOT run; on every '
+       'other path progress never decreases); REQ_IDLE / RES_IDLE (a response is attached to the next transaction in arrival order and the index always advances) and htp_connp_tx_remove (a destroyed '
+       'transaction is detached from BOTH directions) carry "no callback after transaction-complete". Whole-trace order ACROSS transition functions is carried only by these per-function contracts.')
